@@ -18,7 +18,7 @@ EXPLANATION = (
     "payloads). (R4) the API handlers for setting / reading the policy evaluated: the request's own document and policy are"
     ' forwarded, the stored policy is returned. (R5) the file-format migration that runs on open for stores written by '
     'iroh-docs 0.94..=0.98 (migrate_redb_v2_tuples::run), evaluated on an old file holding one row per table, carries the '
-    'download policies. (R6) the store actor forwards SetDownloadPolicy / GetDownloadPolicy one to one (the store-actor handler evaluated with the fields of the request as named tokens and gates / store / replica calls answered by an oracle, each step also failing in turn: the own fields of the request reach the core function in order on the addressed document, nothing is carried out after a failed step, the reply is the result of that function; the SyncHandle method evaluated: one request of its own kind, addressed to its namespace argument, each field one of its own parameters, the reply of the actor returned). NOT decided: text round trip for all byte strings (hex/utf8 codecs trusted).'
+    'download policies. (R6) the store actor forwards SetDownloadPolicy / GetDownloadPolicy one to one (the store-actor handler evaluated with the fields of the request as named tokens and gates / store / replica calls answered by an oracle, each step also failing in turn: the own fields of the request reach the core function in order on the addressed document, nothing is carried out after a failed step, the reply is the result of that function; the SyncHandle method evaluated: one request of its own kind, addressed to its namespace argument, each field one of its own parameters, the reply of the actor returned). (R7) the live actor handler of remote-insert events evaluated on download flag x content status: a download is started from the providing peer, or the hash recorded as missing, exactly when the flag is set. NOT decided: text round trip for all byte strings (hex/utf8 codecs trusted).'
 )
 ASSUMPTIONS = ["postcard encode/decode are inverse (trusted)", "redb tables are identified by their key/value types"]
 
@@ -275,6 +275,14 @@ def r6(ctx):
     actorfw.claim(ctx, "C15.R6", handlers=("SetDownloadPolicy", "GetDownloadPolicy"), clients=("set_download_policy", "get_download_policy"), floor=6)
 
 
+def r7(ctx):
+    """what the engine does with the decision: the content of a remotely inserted entry is fetched or recorded as wanted
+    exactly when the event carries the download flag"""
+    from . import livefw
+    livefw.check_download_selection(ctx, "C15.R7")
+    ctx.floor("C15.R7", 6)
+
+
 def run(ctx):
     ctx.run_rule("C15.R1", r1)
     ctx.run_rule("C15.R2", r2)
@@ -282,3 +290,4 @@ def run(ctx):
     ctx.run_rule("C15.R4", r4)
     ctx.run_rule("C15.R5", r5)
     ctx.run_rule("C15.R6", r6)
+    ctx.run_rule("C15.R7", r7)
